@@ -262,7 +262,7 @@ def run(ctx):
     ]
     # Proofs/DscoreADProofs.v (interval arithmetic: the pinned p-value exceeds 1; E3 tactics) is built as
     # an extra target: it is outside the closure of Props/C10.v (see the comment there)
-    proved = cm.prove(ctx, extra_targets=["Proofs/DscoreADProofs.vo"])
+    proved = cm.prove_with_kernels(ctx, ["c_ensrank"], extra_targets=["Proofs/DscoreADProofs.vo"])
     ctx.obligation("Proofs/DscoreADProofs.v:ad_pvalue_noclip_refuted (interval arithmetic; extra target, "
                    "compiled by coqc, outside the coqchk closure)", proved)
     cm.use_impl()
